@@ -10,6 +10,7 @@ import Ogorek.CPickleS
 import Ogorek.Py2Repr
 import Ogorek.Lemmas.PkRT
 import Ogorek.Props.C03Dec
+import Ogorek.Props.C02Py2
 import Ogorek.Generated.IsPrint
 
 /-!
@@ -434,6 +435,19 @@ def handle (line : String) : String :=
       let f : F64 := UInt64.ofNat (bs.foldl (fun acc b => acc * 256 + b.toNat) 0)
       if which == "g" then (if floatTextOKb f then "1" else "0") else (if pyFloatTextOKb f then "1" else "0")
     | none => "BADCASE"
+  | ["py2str", proto, put, hex] =>      -- what Python 2's picklers write for a str (put: the memo index written, or -)
+    match proto.toNat?, bytesOfHex? hex with
+    | some p, some bs =>
+      if put == "-" then "OK " ++ hexOfBytes (py2StrPickle p none bs)
+      else match put.toNat? with
+        | some n => "OK " ++ hexOfBytes (py2StrPickle p (some n) bs)
+        | none => "BADCASE"
+    | _, _ => "BADCASE"
+  | ["py2ba", proto, g, t, l, a, r, hex] =>      -- bytearray(text, 'latin-1') as Python 2 writes it; the five memo PUTs: an index or -
+    let opt (x : String) : Option (Option Nat) := if x == "-" then some none else x.toNat?.map some
+    match proto.toNat?, opt g, opt t, opt l, opt a, opt r, bytesOfHex? hex with
+    | some p, some g, some t, some l, some a, some r, some bs => "OK " ++ hexOfBytes (py2BytearrayPickle p ⟨g, t, l, a, r⟩ bs)
+    | _, _, _, _, _, _, _ => "BADCASE"
   | ["py2repr", hex] =>      -- repr of a Python-2 str (the STRING argument Python 2's pickler writes)
     match bytesOfHex? hex with
     | some bs => "OK " ++ hexOfBytes (py2repr bs)
